@@ -368,3 +368,25 @@ _add(
     deciding={"any": {"trees": 200, "evaluations_compared": 100, "results_with_undetermined_outcome": 20, "round_trips:ahb-result": 50, "round_trips:requirement-result": 100, "round_trips:format-result": 100, "round_trips:content-evaluation-result": 300, "round_trips:categorized-key-extract": 50, "round_trips:evaluated-format-constraint": 200, "concise_dumps_before_round_trip": 100, "unsanitized_extracts": 50, "staged_resolutions": 30, "rejected_documents_in_between": 100}},
     headline=["trees", "evaluations_compared", "results_with_undetermined_outcome"],
 )
+
+
+# what the workloads gained after the first version (see DESIGN.md section 10.4); appended to the rule texts
+RULE_ADDITIONS = {
+    "C02": "every 7th string is parsed twice (same verdict); sequences 'well-formed string whose package is malformed -> repaired table / no package resolution'.",
+    "C04": "half of the async evaluations run under a random completion order; every fourth expression also through the library's own evaluators (dictionary based, ContentEvaluationResult based with fresh and with ONE long-lived in-place refreshed EvaluatableData, user evaluator classes with instance state and new instances per message), assignments consecutively per mode; re-evaluation with the same tree and input node objects.",
+    "C05": "fresh keys include the ends of the hint / format-constraint ranges; up to six variants per expression also through the async API, mostly under a random completion order.",
+    "C06": "is_valid_expression also on the already resolved tree; a class of expressions built from hints and format constraints alone (the 'directly combines a single hint with a single format constraint' boundary); failing out-of-domain evaluations interleaved with the judged ones.",
+    "C08": "message-less constraints through the tree evaluator (Boolean clause only); async evaluations mostly under a random completion order; the library's dictionary / ContentEvaluationResult based evaluators with and without messages; 2-5 concurrent evaluations of one expression with different texts (no foreign text in a message).",
+    "C09": "the first assignment of every expression also through the library's own dictionary / ContentEvaluationResult based evaluators (same result as with equivalent user evaluators).",
+    "C10": "half of the cases also through the library's own package resolvers (dictionary based; ContentEvaluationResult based with the same resolver instances and changing data).",
+    "C11": "every pool string also goes to the OTHER parser before, during and after the history (must stay a SyntaxError).",
+    "C12": "the abbreviated expression must evaluate like the expression with every package written out; the three gather sites called directly (evaluate_conditions also with per-key evaluation contexts, a key asked for twice) under all / sampled orders; the harness evaluator narrows and re-reads its evaluation context around the yield.",
+    "C13": "validate_segment(_group) with an explicit parent status (all three); batches of 2-4 validations awaited from one coroutine; a quarter of the runs through the library's own evaluators; 40 % of the trees with maus line indexes in flat-AHB order; a third of the trees partly written with packages.",
+    "C14": "35 % of the trees with exactly one UNKNOWN key (so that it reaches only SOLL nodes); the segment-level entry point without flag after a refused run with flag False in the same task; a third of the trees partly written with packages.",
+    "C15": "every fourth tree shares three keys between all elements, every sixth uses the shipped 932-935 on ONE instant written in up to nine notations, half of the runs start with a stale text in the caller's context; no other element's input may appear in an element's result.",
+    "C16": "35 % of the injections with one pending look-up per requirement key shared between all nodes; hint texts contain braces, percent signs and quotes; a third of the trees partly written with packages.",
+    "C18": "fixed extraction cases every run contains (unknown package, out-of-range keys, nested package, all flags); a second sum with the same left summand; the product regenerated after keys were added to the same extract.",
+    "C19": "staged resolution on one tree object (inspect unresolved, then expand); dumps through the concise schemas and rejected documents interleaved; long-lived schema instances; extracts as extracted (unsanitised).",
+}
+for _pid, _text in RULE_ADDITIONS.items():
+    META[_pid]["rule"] += " Also: " + _text
